@@ -76,7 +76,9 @@ func (db *DB) get(mode storage.ModeGet, addr, rootAddr boson.Address) (out shed.
 		if err != nil {
 			return out, err
 		}
-		return pinnedItem, nil
+		// keep the retrieval entry (address, data, timestamps) and add the pin counter
+		out.PinCounter = pinnedItem.PinCounter
+		return out, nil
 
 	// no updates to indexes
 	case storage.ModeGetSync:
